@@ -157,6 +157,21 @@ def gen_fn_cases(rng, caps0, tier, searching):
             if caps0[mi] + 1 <= 400000:
                 g[scal[mi]] = caps0[mi] + rng.randint(1, 3)
         add("default-multi", caps0, g, [(2, 5, 3)])
+    # functions AND locals large at the same time: F*(F+2L+2) crosses 2^32 although each factor is
+    # far below it (and, with the default caps, below its own cap so that no earlier stage trips)
+    n_cross = 10 if tier == "quick" else 80
+    for i in range(n_cross):
+        f = rng.randint(int(caps0[0] * 0.88), caps0[0])
+        l = rng.randint(int(caps0[1] * 0.88), caps0[1])
+        if f > 40000 or l > 600000:
+            break
+        add("default-product-cross", caps0, [l, 4, 5, 1, 5, 6], [(2, 1, 0)] * f)
+    for i in range(n_cross):
+        f = rng.randint(3000, 20000)
+        l = rng.randint(100000, 400000)
+        prod = f * (f + 2 * l + 2)
+        caps = [U32] * 9 + [max(0, prod + rng.choice([-1, 0, 1, -(1 << 32), (1 << 32) - prod % (1 << 32)])), U64]
+        add("product-cross", caps, [l, 4, 5, 1, 5, 6], [(2, 1, 0)] * f)
     # u32 / u64 extremes: saturation in the liveness fold, caps at and next to u64::MAX
     ext32 = [0, 1, 2, 65535, 65536, (1 << 31) - 1, 1 << 31, U32 - 1, U32]
     ext64 = [0, 1, (1 << 32), (1 << 63) - 1, 1 << 63, U64 - 2, U64 - 1, U64]
@@ -384,9 +399,30 @@ class RandomProgram:
 
 # --- sized families ---------------------------------------------------------------------------
 
+# Scoping- and pruning-sensitive prelude shared by every sized family.  Its printed lines are
+# known to the generator and must be the same just below, at and above every limit:
+#   * `show` reads the outer `x` while its caller `caller` declares an `x` of its own
+#     (lexical scoping: prints 10, never 99);
+#   * `bump` writes the captured `x`; it is only called from the initialiser of an unused
+#     declaration (must not be pruned away: prints 11);
+#   * a dead store, an unreachable statement, a never-called function, an unused variable
+#     (warnings + removable statements, no effect on the output);
+#   * arrays are values: writing through the copy does not change the original.
 PRELUDE_SRC = [
-    "make keep get 1",
+    "make x get 10",
     "make dead get 5",                       # unused: warning + removable statement
+    "do show() start",
+    "    shout(x)",
+    "end",
+    "do caller() start",
+    "    make x get 99",
+    "    show()",
+    "    return x",
+    "end",
+    "do bump() start",
+    "    x get x add 1",
+    "    return 0",
+    "end",
     "do helper(a) start",
     "    return a add 1",
     "    shout(\"unreachable\")",            # unreachable: warning + removable statement
@@ -394,10 +430,24 @@ PRELUDE_SRC = [
     "do never() start",                      # never called: warning + removable definition
     "    shout(\"never\")",
     "end",
+    "make keep get 1",
     "keep get helper(keep)",
-    "shout(keep)",
+    "shout(keep)",                           # 2
+    "shout(caller())",                       # 10 (from show), then 99
+    "make unused get bump()",
+    "shout(x)",                              # 11
+    "x get 5",                               # dead store
+    "x get 6",
+    "shout(x)",                              # 6
+    "make arr get [1, 2, 3]",
+    "make copy get arr",
+    "copy[0] get 7",
+    "shout(arr[0])",                         # 1
+    "shout(copy[0])",                        # 7
 ]
-PRELUDE_SHAPE = "d0 d0 F1( r0 s0 ) F0( s0 ) s1 s0"
+PRELUDE_SHAPE = ("d0 d0 F0( s0 ) F0( d0 s1 r0 ) F0( s0 r0 ) F1( r0 s0 ) F0( s0 ) "
+                 "d0 s1 s0 s1 d1 s0 s0 s0 s0 d0 d0 s0 s0 s0")
+PRELUDE_OUT = ["2", "10", "99", "11", "6", "1", "7"]
 
 
 def rep(n, body):
@@ -419,7 +469,7 @@ def family(name, n, want_src=True):
     src = list(PRELUDE_SRC) if want_src else _NoSrc()
     shape = [PRELUDE_SHAPE]
     keep = 2
-    out = ["2"]
+    out = list(PRELUDE_OUT)
     if name == "functions":
         for i in range(n):
             src.append("do f%d() start" % i)
@@ -467,6 +517,11 @@ def family(name, n, want_src=True):
             src.append(stmt(r))
         src.append("end")
         shape.append("I0( %s %s )" % (rep(q, "s%d" % per), ("s%d" % r) if r else ""))
+    elif name == "wide":
+        for i in range(n):
+            src.append("do w%d(a, b, c, d, e, f, g, h) start" % i)
+            src.append("end")
+        shape.append(rep(n, "F8( )"))
     elif name == "summary":
         return family("functions", n, want_src)
     else:
@@ -873,6 +928,11 @@ def correspond(env, searching=False, model=True):
             for n in (t - 1, t, t + 1):
                 if n >= 0:
                     sized.append((target, fam, n))
+    # fixed probes: functions and locals both close to their caps (the summary bound is then far
+    # above 2^32 resp. just below it); whatever the model says is the expected verdict
+    if icaps[0] <= 40000 and icaps[1] <= 600000 and icaps[1] >= 8 * icaps[0] - 64:
+        for n in (int(icaps[0] * 0.9), icaps[0] - 8):
+            sized.append(("summary_events", "wide", n))
     extra["effective_thresholds"] = thr_report
     extra["unreachable_under_default_caps"] = (
         "cfg_ops and ops_in_one_function are shadowed by statements (C18_ops_stages_shadowed; caps %d <= %d <= %d); "
